@@ -12,10 +12,14 @@ inv='''self.phase != Phase::Drop,
                 self.metrics.a@.zero_factors == old(self).metrics.a@.zero_factors,
                 (stop == Stop::FullyMarked && old(self).phase != Phase::Sweep) ==> self.phase != Phase::Sweep,
                 (stop_rank(stop) <= 1 && old(self).phase == Phase::Sweep) ==> same_visible(old(self), self),
+                old(self).hist@.len() <= self.hist@.len(), self.hist@.subrange(0, old(self).hist@.len() as int) =~= old(self).hist@,
+                stop == Stop::FinishCycle ==> forall|i: int| old(self).hist@.len() <= i < self.hist@.len() ==> self.hist@[i] != Phase::Sleep,
                 (run_until == RunUntil::PayDebt && old(self).metrics.a@.zero_factors && old(self).metrics.debt_pos())
                     ==> self.metrics.debt_pos() || (self.phase == Phase::Sweep && self.sweep is None),
             ensures
                 self.phase != Phase::Drop,
+                old(self).hist@.len() <= self.hist@.len(), self.hist@.subrange(0, old(self).hist@.len() as int) =~= old(self).hist@,
+                stop == Stop::FinishCycle ==> forall|i: int| old(self).hist@.len() <= i < self.hist@.len() - 1 ==> self.hist@[i] != Phase::Sleep,
                 (stop_rank(stop) <= 1 && old(self).phase == Phase::Sweep) ==> same_visible(old(self), self),
                 (stop == Stop::FullyMarked && old(self).phase != Phase::Sweep) ==> self.phase != Phase::Sweep,
                 (run_until == RunUntil::Stop && stop == Stop::FullyMarked && old(self).phase != Phase::Sweep) ==> self.phase == Phase::Mark && !self.gray_remaining_spec(),
